@@ -576,8 +576,8 @@ func errKind(err error) string {
 	switch {
 	case err == nil:
 		return "ok"
-	case errors.Is(err, errInjected):
-		return "injected"
+	case errors.Is(err, errInjected), errors.Is(err, file.ErrDuplicateName):
+		return "storage-error" // the target failed: injected fault, or a file store refusing a taken name
 	case errors.Is(err, errdef.ErrInvalidMediaType):
 		return "invalid-media-type"
 	case errors.Is(err, oras.ErrMissingArtifactType):
@@ -835,8 +835,8 @@ func packCase(sp *spec) {
 			panic(fmt.Sprintf("prefill %v: %v", d, err))
 		}
 		e := fmt.Sprintf("%s:%s:%d", common.Hex(d.MediaType), common.Hex(string(d.Digest)), d.Size)
-		if d.Annotations[ocispec.AnnotationTitle] != "" {
-			e += ":n" // a named file of the file store
+		if t := d.Annotations[ocispec.AnnotationTitle]; t != "" {
+			e += ":" + common.Hex(t) // a named file of the file store
 		}
 		if err == nil || !seenEntry[e] {
 			storeEntries = append(storeEntries, e)
@@ -975,7 +975,7 @@ func packCase(sp *spec) {
 			fail("created-lenient", "%s: created=%q is not RFC 3339 (one of the leniencies of time.Parse) but the call succeeded: %v", sp.Fn, sp.Ann[key], desc)
 		} else if err == nil {
 			fail("bad-created-accepted", "%s: created=%q is malformed but the call succeeded: %v", sp.Fn, sp.Ann[key], desc)
-		} else if kind != "invalid-datetime" && kind != "injected" {
+		} else if kind != "invalid-datetime" && kind != "storage-error" {
 			fail("bad-created-kind", "%s: created=%q malformed, error is %v", sp.Fn, sp.Ann[key], err)
 		}
 		if manifestPushes != 0 && err != nil {
@@ -983,9 +983,16 @@ func packCase(sp *spec) {
 		}
 		return
 	}
-	if kind == "injected" {
-		if sp.FailAt < 0 || sp.FailAt >= rec.ops {
-			fail("phantom-injected", "injected error without a fault")
+	if kind == "storage-error" {
+		switch {
+		case errors.Is(err, errInjected):
+			if sp.FailAt < 0 || sp.FailAt >= rec.ops {
+				fail("phantom-injected", "injected error without a fault")
+			}
+		case sp.Target == "file" && nameClash(sp):
+			run.Count("file_duplicate_name") // the file store refused a taken file name: Pack reports it
+		default:
+			fail("unexpected-error", "%s(%q) on %s: valid input failed: %v", sp.Fn, sp.AT, sp.Target, err)
 		}
 		return
 	}
@@ -1078,7 +1085,12 @@ func packCase(sp *spec) {
 			p2 = fullStorage{rec2}
 		}
 		d2, err2 := callPack(sp, p2)
-		if err2 != nil || !reflect.DeepEqual(d2, desc) {
+		if err2 != nil && sp.Target == "file" && errors.Is(err2, file.ErrDuplicateName) &&
+			(sp.Ann[ocispec.AnnotationTitle] != "" || sp.ConfigAnn[ocispec.AnnotationTitle] != "") {
+			// the file store refuses to write a named file twice (not ErrAlreadyExists): repeating
+			// the call on the same file store is not judged, the fresh-target repeats below are
+			run.Count("file_repeat_refused")
+		} else if err2 != nil || !reflect.DeepEqual(d2, desc) {
 			fail("not-deterministic", "second call on the same target: %v %v, first %v", d2, err2, desc)
 		}
 		// Go maps carry no order: the same annotations inserted in another order (and into maps of
@@ -1194,4 +1206,27 @@ func unsortedAnnotations(data []byte) string {
 		return ""
 	}
 	return walk(false)
+}
+
+// nameClash: a title Pack is asked to put on a blob it pushes itself (config, manifest) is also
+// the name of another file the call meets (ground truth of the generator).
+func nameClash(sp *spec) bool {
+	ct, mt := sp.ConfigAnn[ocispec.AnnotationTitle], sp.Ann[ocispec.AnnotationTitle]
+	if ct == "" && mt == "" {
+		return false
+	}
+	if ct != "" && ct == mt {
+		return true
+	}
+	taken := func(d ocispec.Descriptor) bool {
+		t := d.Annotations[ocispec.AnnotationTitle]
+		_, backed := sp.Backed[string(d.Digest)]
+		return backed && t != "" && (t == ct || t == mt)
+	}
+	for _, l := range sp.Layers {
+		if taken(l) {
+			return true
+		}
+	}
+	return sp.Config != nil && taken(*sp.Config)
 }
